@@ -34,7 +34,7 @@ var (
 	mkC13 = func() []*sim.Mon { return []*sim.Mon{sim.MonC13()} }
 	shC11 = Shape{Probes: 12, MaybeChanging: 15, ChangingFaults: 50}
 	shC12 = Shape{ManyTxs: true, MaybeChanging: 10, ChangingFaults: 60}
-	shC13 = Shape{Watchers: true}
+	shC13 = Shape{Watchers: true, MaybeChanging: 15, ChangingFaults: 50}
 )
 
 func init() {
